@@ -79,14 +79,18 @@ Inductive itop := ISeek (k : bytes) | ISeekRev (k : bytes) | INext | IGet (k : b
 Inductive txop := TGet (k : bytes) | THas (k : bytes) | TSet (k v : bytes) | TDel (k : bytes) | TView (ops : list itop).
 Inductive kvop :=
 | OGet (k : bytes) | OHas (k : bytes) | OSet (k v : bytes) | ODel (k : bytes) | ODelPrefix (p : bytes)
-| OView (ops : list itop) | OUpdate (ops : list txop) | OBulk (kvs : list (bytes * bytes)).
+| OView (ops : list itop) | OUpdate (ops : list txop) | OBulk (kvs : list (bytes * bytes))
+(* the same two calls with a callback that does its work and then returns an error: as one ordered map with
+   transactional updates, the store is left as it was *)
+| OUpdateFail (ops : list txop) | OBulkFail (kvs : list (bytes * bytes)).
 
 Inductive res :=
 | RVal (v : option bytes)     (* Get: Some value / not found *)
 | RBool (b : bool)
 | RUnit
 | RPos (p : option (bytes * bytes))   (* iterator observation after a cursor call: Valid, Key, Value *)
-| RList (l : list res).
+| RList (l : list res)
+| RErr.                      (* the call returned the callback's error *)
 
 Record cursor := { c_cur : option (bytes * bytes); c_fwd : bool }.
 
@@ -131,9 +135,23 @@ Definition kv_step (s : store) (o : kvop) : store * res :=
   | OView ops => (s, view s ops)
   | OUpdate ops => let (s', xs) := tx_run s ops in (s', RList xs)
   | OBulk kvs => (fold_left (fun st kv => kv_set st (fst kv) (snd kv)) kvs s, RUnit)
+  | OUpdateFail _ | OBulkFail _ => (s, RErr)
   end.
 Fixpoint kv_run (s : store) (ops : list kvop) : store * list res :=
   match ops with
   | [] => (s, [])
   | o :: r => let (s1, x) := kv_step s o in let (s2, xs) := kv_run s1 r in (s2, x :: xs)
+  end.
+
+(* known finding (C10): the Pebble adapter's Update is not a transaction ("Pebble doesn't actually provide
+   transactions, so this is just filling in as a wrapper function"): what a failing callback wrote stays *)
+Definition kv_step_leaky (s : store) (o : kvop) : store * res :=
+  match o with
+  | OUpdateFail ops => (fst (tx_run s ops), RErr)
+  | _ => kv_step s o
+  end.
+Fixpoint kv_run_leaky (s : store) (ops : list kvop) : store * list res :=
+  match ops with
+  | [] => (s, [])
+  | o :: r => let (s1, x) := kv_step_leaky s o in let (s2, xs) := kv_run_leaky s1 r in (s2, x :: xs)
   end.
